@@ -402,8 +402,6 @@ type n =
 
 val compose : ('a2 -> 'a3) -> ('a1 -> 'a2) -> 'a1 -> 'a3
 
-val flip : ('a1 -> 'a2 -> 'a3) -> 'a2 -> 'a1 -> 'a3
-
 val eqb : bool -> bool -> bool
 
 type reflect =
@@ -1076,10 +1074,6 @@ type 'a empty = 'a
 
 val empty0 : 'a1 empty -> 'a1
 
-type 'a union = 'a -> 'a -> 'a
-
-val union0 : 'a1 union -> 'a1 -> 'a1 -> 'a1
-
 type ('a, 'b) singleton = 'a -> 'b
 
 val singleton0 : ('a1, 'a2) singleton -> 'a1 -> 'a2
@@ -1126,17 +1120,6 @@ val partial_alter :
   ('a1, 'a2, 'a3) partialAlter -> ('a2 option -> 'a2 option) -> 'a1 -> 'a3 ->
   'a3
 
-type 'm merge =
-  __ -> __ -> __ -> (__ option -> __ option -> __ option) -> 'm -> 'm -> 'm
-
-val merge0 :
-  'a1 merge -> ('a2 option -> 'a3 option -> 'a4 option) -> 'a1 -> 'a1 -> 'a1
-
-type ('a, 'm) unionWith = ('a -> 'a -> 'a option) -> 'm -> 'm -> 'm
-
-val union_with :
-  ('a1, 'a2) unionWith -> ('a1 -> 'a1 -> 'a1 option) -> 'a2 -> 'a2 -> 'a2
-
 type ('a, 'c) elements = 'c -> 'a list
 
 val elements0 : ('a1, 'a2) elements -> 'a2 -> 'a1 list
@@ -1171,8 +1154,6 @@ val option_ret : __ -> __ option
 val option_bind : (__ -> __ option) -> __ option -> __ option
 
 val option_fmap : (__ -> __) -> __ option -> __ option
-
-val option_union_with : ('a1, 'a1 option) unionWith
 
 module Coq0_Pos :
  sig
@@ -1248,10 +1229,6 @@ type ('k, 'a, 'm) finMapToList = 'm -> ('k * 'a) list
 
 val map_to_list : ('a1, 'a2, 'a3) finMapToList -> 'a3 -> ('a1 * 'a2) list
 
-val diag_None :
-  ('a1 option -> 'a2 option -> 'a3 option) -> 'a1 option -> 'a2 option -> 'a3
-  option
-
 val map_insert : ('a1, 'a2, 'a3) partialAlter -> ('a1, 'a2, 'a3) insert
 
 val map_delete : ('a1, 'a2, 'a3) partialAlter -> ('a1, 'a3) delete
@@ -1263,10 +1240,6 @@ val list_to_map :
   ('a1, 'a2, 'a3) insert -> 'a3 empty -> ('a1 * 'a2) list -> 'a3
 
 val map_size : ('a1, 'a2, 'a3) finMapToList -> 'a3 size
-
-val map_union_with : 'a1 merge -> ('a2, 'a1) unionWith
-
-val map_union : 'a1 merge -> 'a1 union
 
 val map_fold :
   ('a1, 'a2, 'a3) finMapToList -> ('a1 -> 'a2 -> 'a4 -> 'a4) -> 'a4 -> 'a3 ->
@@ -1283,8 +1256,6 @@ val mapset_empty : (__ -> 'a1 empty) -> 'a1 mapset' empty
 val mapset_singleton :
   (__ -> 'a2 empty) -> (__ -> ('a1, __, 'a2) partialAlter) -> ('a1, 'a2
   mapset') singleton
-
-val mapset_union : 'a1 merge -> 'a1 mapset' union
 
 val mapset_elements :
   (__ -> ('a1, __, 'a2) finMapToList) -> ('a1, 'a2 mapset') elements
@@ -1313,12 +1284,6 @@ val ppartial_alter_raw :
 val pto_list_raw :
   positive -> 'a1 pmap_raw -> (positive * 'a1) list -> (positive * 'a1) list
 
-val pomap_raw : ('a1 -> 'a2 option) -> 'a1 pmap_raw -> 'a2 pmap_raw
-
-val pmerge_raw :
-  ('a1 option -> 'a2 option -> 'a3 option) -> 'a1 pmap_raw -> 'a2 pmap_raw ->
-  'a3 pmap_raw
-
 type 'a pmap = { pmap_car : 'a pmap_raw }
 
 val pmap_eq_dec : ('a1, 'a1) relDecision -> ('a1 pmap, 'a1 pmap) relDecision
@@ -1330,9 +1295,6 @@ val plookup : (positive, 'a1, 'a1 pmap) lookup
 val ppartial_alter : (positive, 'a1, 'a1 pmap) partialAlter
 
 val pto_list : (positive, 'a1, 'a1 pmap) finMapToList
-
-val pmerge :
-  (__ option -> __ option -> __ option) -> __ pmap -> __ pmap -> __ pmap
 
 type ('k, 'a) gmap = { gmap_car : 'a pmap }
 
@@ -1351,10 +1313,6 @@ val gmap_partial_alter :
   ('a1, 'a1) relDecision -> 'a1 countable -> ('a1, 'a2, ('a1, 'a2) gmap)
   partialAlter
 
-val gmap_merge :
-  ('a1, 'a1) relDecision -> 'a1 countable -> (__ option -> __ option -> __
-  option) -> ('a1, __) gmap -> ('a1, __) gmap -> ('a1, __) gmap
-
 val gmap_to_list :
   ('a1, 'a1) relDecision -> 'a1 countable -> ('a1, 'a2, ('a1, 'a2) gmap)
   finMapToList
@@ -1365,8 +1323,6 @@ val gset_empty : ('a1, 'a1) relDecision -> 'a1 countable -> 'a1 gset empty
 
 val gset_singleton :
   ('a1, 'a1) relDecision -> 'a1 countable -> ('a1, 'a1 gset) singleton
-
-val gset_union : ('a1, 'a1) relDecision -> 'a1 countable -> 'a1 gset union
 
 val gset_elements :
   ('a1, 'a1) relDecision -> 'a1 countable -> ('a1, 'a1 gset) elements
@@ -1413,6 +1369,9 @@ val get64 : bytes -> n -> n
 val get32 : bytes -> n -> n
 
 val splice : bytes -> n -> bytes -> bytes
+
+val gs_add :
+  ('a1, 'a1) relDecision -> 'a1 countable -> 'a1 -> 'a1 gset -> 'a1 gset
 
 type name = bytes
 
@@ -1842,9 +1801,6 @@ type wf_error =
 | EFuel
 
 val bad_name_b : n -> name -> bool
-
-val gs_add :
-  ('a1, 'a1) relDecision -> 'a1 countable -> 'a1 -> 'a1 gset -> 'a1 gset
 
 val gs_of_list :
   ('a1, 'a1) relDecision -> 'a1 countable -> 'a1 list -> 'a1 gset
